@@ -14,7 +14,7 @@ func init() {
 	// the streamed-body and in-place-normalisation rules are shared with C14 / C02: their
 	// violations deliver bytes of one request as part of another, which is C01's last clause
 	register("C01", c01Fold, c01Dispatch, c01Framers, func(e *Env) { serveLoop(e, "C01") }, c03Limit("C01.limit"),
-		c02Retry, c14Chunk, c14Bound, c14Prefetch, c14Drain, c14EOF, c03HexWidth, c13Release, c13Len, c13Remainder, c13Window, c04Slots, c17Fill, c09Pools, c14SkipBound, c14Identity, c18Drain, c14KeepStream, c14Clamp, c13AbortFirst, c14SkipWait)
+		c02Retry, c14Chunk, c14Bound, c14Prefetch, c14Drain, c14EOF, c03HexWidth, c13Release, c13Len, c13Remainder, c13Window, c04Slots, c17Fill, c09Pools, c14SkipBound, c14Identity, c18Drain, c14KeepStream, c14Clamp, c13AbortFirst, c14SkipWait, c14LimitStrict)
 }
 
 const pkgBytestr = Mod + "/internal/bytestr"
